@@ -266,6 +266,8 @@ Qed.
 Lemma chunks1024_concat l : concat (chunks1024 l) = l.
 Proof. apply chunks_concat; lia. Qed.
 
+Global Opaque chunks1024.
+
 (* ------------------------------------------------------------------ the trace as plain calls *)
 
 Lemma map_flat_map {A B C} (f : B -> C) (g : A -> list B) l :
@@ -302,8 +304,8 @@ Definition pass_ops (rho : order) (th : thread) (p : nat) : list op :=
 Lemma map_pass_new rho th p : map i_op (pass_new rho th p) = pass_ops rho th p.
 Proof.
   unfold pass_new, pass_ops. rewrite !map_app, map_flat_map. simpl. do 2 f_equal.
-  apply flat_map_ext; intros e; simpl; f_equal.
-  destruct e as [| |[]]; destruct p as [|[|[|p]]]; simpl; rewrite ?map_copy_new; reflexivity.
+  apply flat_map_ext; intros e.
+  destruct e as [| |[]]; destruct p as [|[|[|p]]]; cbn [map i_op mki pbody_ops]; rewrite ?map_copy_new; reflexivity.
 Qed.
 
 Definition nt (q : path) (o : op) : Prop := touch o <> Some q.
@@ -363,22 +365,18 @@ Lemma s2_shape bufsz (j o tj : path) (X1 CO X2 X3 : list op) cs n s0 t all :
   flushed_of X1 t = all ->
   concat cs = meta_text true n ->
   content s0 j = [] ->
-  forall e, prefix e (X1 ++ CO ++ X2 ++ [FopenW j] ++ (loop_ops tj j cs ++ [Fread tj []]) ++ [Fclose j] ++ X3) ->
+  forall e, prefix e ((X1 ++ CO ++ X2) ++ FopenW j :: (loop_ops tj j cs ++ [Fread tj []]) ++ Fclose j :: X3) ->
   json_finished (content (apply_ops bufsz e s0) j) = true ->
   files (apply_ops bufsz e s0) o = Some all /\ flushed_of e t = all.
 Proof.
   intros Htj N1 N2 N3 O2 O3 Oa Ob OL HCO W2 W3 W4 WL Hfl Hcs Hc0 e He Hfin.
   assert (Hempty : forall l, Forall (nt j) l -> json_finished (content (apply_ops bufsz l s0) j) = false).
   { intros l Hl. rewrite content_frame by exact Hl. rewrite Hc0; reflexivity. }
-  rewrite !app_assoc in He. rewrite <- !app_assoc in He.
   (* before the destination of stream.json is opened nothing is there *)
   assert (NP : Forall (nt j) (X1 ++ CO ++ X2)) by (rewrite !Forall_app; auto).
-  replace (X1 ++ CO ++ X2 ++ [FopenW j] ++ (loop_ops tj j cs ++ [Fread tj []]) ++ [Fclose j] ++ X3)
-    with ((X1 ++ CO ++ X2) ++ [FopenW j] ++ (loop_ops tj j cs ++ [Fread tj []]) ++ [Fclose j] ++ X3) in He
-    by (rewrite <- !app_assoc; reflexivity).
   apply prefix_app_cases in He as [He|(e2 & -> & He)].
   { rewrite Hempty in Hfin; [discriminate | eapply Forall_prefix; eauto]. }
-  simpl in He. apply prefix_cons_cases in He as [->|(e3 & -> & He)].
+  apply prefix_cons_cases in He as [->|(e3 & -> & He)].
   { rewrite app_nil_r in Hfin. rewrite Hempty in Hfin; [discriminate | auto]. }
   set (sA := apply_ops bufsz (X1 ++ CO ++ X2) s0) in *.
   assert (HB : bufinv (exec_ok bufsz (FopenW j) sA) j []) by apply bufinv_fopen.
@@ -412,10 +410,320 @@ Proof.
     unfold sA. rewrite app_assoc, apply_ops_app.
     destruct (apply_ops_frame bufsz X2 (apply_ops bufsz (X1 ++ CO) s0) o O2) as [-> _].
     rewrite apply_ops_app. apply HCO.
-  - rewrite !flushed_of_app. rewrite Hfl.
+  - rewrite !flushed_of_app. cbn [flushed_of]. rewrite !flushed_of_app. cbn [flushed_of]. rewrite Hfl.
     rewrite (flushed_of_nowrite CO), (flushed_of_nowrite X2) by auto.
     apply Forall_app in WL as [WL1 WL2].
     rewrite (flushed_of_nowrite (loop_ops tj j cs)) by auto.
-    simpl. rewrite (flushed_of_nowrite e6); [rewrite !app_nil_r; reflexivity|].
+    rewrite (flushed_of_nowrite e6); [rewrite !app_nil_r; reflexivity|].
     eapply Forall_prefix; eauto.
+Qed.
+
+(* ------------------------------------------------------------------ readdir order *)
+
+Lemma order_split rho : wf_order rho -> forall t p x, In x all_entries ->
+  exists a b, rho t p = a ++ x :: b /\ ~ In x a /\ ~ In x b.
+Proof.
+  intros W t p x Hx. specialize (W t p).
+  assert (Hin : In x (rho t p)) by (eapply Permutation_in; [apply Permutation_sym; eauto | auto]).
+  assert (Hnd : NoDup (rho t p)).
+  { eapply Permutation_NoDup; [apply Permutation_sym; eauto|].
+    unfold all_entries; repeat constructor; simpl; intuition discriminate. }
+  apply in_split in Hin as (a & b & E). exists a, b; split; auto.
+  rewrite E in Hnd. apply NoDup_remove_2 in Hnd. split; intros H; apply Hnd; apply in_or_app; auto.
+Qed.
+
+Definition ronly (o : op) : Prop := match o with Readdir _ _ => True | _ => False end.
+
+Lemma ronly_nt q o : ronly o -> nt q o.
+Proof. destruct o; simpl; try tauto; intros _; unfold nt; simpl; discriminate. Qed.
+Lemma ronly_nowrite o : ronly o -> nowrite o.
+Proof. destruct o; simpl; try tauto; reflexivity. Qed.
+
+Lemma pass0_ronly th d l : ~ In (EFile Obs) l ->
+  Forall ronly (flat_map (fun e => Readdir d (Some e) :: pbody_ops th 0 e) l).
+Proof.
+  intros H; apply Forall_flat_map, Forall_forall; intros e He.
+  destruct e as [| |[]]; try (exfalso; apply H; exact He); simpl; repeat constructor.
+Qed.
+
+Lemma pass1_ronly th d l : ~ In (EFile Json) l ->
+  Forall ronly (flat_map (fun e => Readdir d (Some e) :: pbody_ops th 1 e) l).
+Proof.
+  intros H; apply Forall_flat_map, Forall_forall; intros e He.
+  destruct e as [| |[]]; try (exfalso; apply H; exact He); simpl; repeat constructor.
+Qed.
+
+Lemma flushed_of_flush m th :
+  flushed_of (map i_op (flush_tr m th)) (th_tid th) = concat (th_chunks th).
+Proof.
+  unfold flush_tr. induction (th_chunks th) as [|c cs IH]; simpl; auto.
+  rewrite Z.eqb_refl, IH; reflexivity.
+Qed.
+
+Ltac fa := repeat first [ apply Forall_nil | apply Forall_cons | (apply Forall_app; split) ].
+Ltac leaf := unfold nt, nowrite; simpl; try discriminate; try congruence; auto.
+
+Lemma loop_nt q src dst cs : q <> dst -> Forall (nt q) (loop_ops src dst cs).
+Proof.
+  intros H; unfold loop_ops; apply Forall_flat_map, Forall_forall; intros c _.
+  fa; leaf.
+Qed.
+Lemma loop_nowrite src dst cs : Forall nowrite (loop_ops src dst cs).
+Proof. unfold loop_ops; apply Forall_flat_map, Forall_forall; intros c _. fa; leaf. Qed.
+
+Lemma copy_nt q t f data : q <> PFile Fin t f -> q <> PFile Tmp t f -> Forall (nt q) (copy_ops t f data).
+Proof. intros H1 H2; unfold copy_ops; fa; try (apply loop_nt; auto); leaf. Qed.
+Lemma copy_nowrite t f data : Forall nowrite (copy_ops t f data).
+Proof. unfold copy_ops; fa; try apply loop_nowrite; leaf. Qed.
+
+(* the remove pass touches only files of the temporary directory *)
+Lemma pass2_nt rho th (l : loc) t f : Forall (nt (PFile Fin t f)) (pass_ops rho th 2).
+Proof.
+  unfold pass_ops; fa; try leaf.
+  apply Forall_flat_map, Forall_forall; intros e _. destruct e as [| |[]]; simpl; fa; leaf.
+Qed.
+Lemma pass2_nowrite rho th : Forall nowrite (pass_ops rho th 2).
+Proof.
+  unfold pass_ops; fa; try leaf.
+  apply Forall_flat_map, Forall_forall; intros e _. destruct e as [| |[]]; simpl; fa; leaf.
+Qed.
+
+(* ------------------------------------------------------------------ C09, one thread, OVNI_TMPDIR mode *)
+
+Lemma tmp_thread_shape rho th a0 b0 a1 b1 :
+  rho (th_tid th) 0%nat = a0 ++ EFile Obs :: b0 ->
+  rho (th_tid th) 1%nat = a1 ++ EFile Json :: b1 ->
+  let t := th_tid th in
+  let d := PThread Tmp t in
+  let g0 := fun e => Readdir d (Some e) :: pbody_ops th 0 e in
+  let g1 := fun e => Readdir d (Some e) :: pbody_ops th 1 e in
+  let X1 := map i_op (thread_init_tr TmpMode th) ++ map i_op (flush_tr TmpMode th)
+            ++ map i_op (store_meta_tr TmpMode t (meta_text true (th_meta1 th)))
+            ++ [Close (PFile Tmp t Obs); Opendir d] ++ flat_map g0 a0 ++ [Readdir d (Some (EFile Obs))] in
+  let X2 := flat_map g0 b0 ++ [Readdir d None; Closedir d; Opendir d] ++ flat_map g1 a1
+            ++ [Readdir d (Some (EFile Json)); FopenR (PFile Tmp t Json)] in
+  let X3 := Fclose (PFile Tmp t Json) :: flat_map g1 b1 ++ [Readdir d None; Closedir d]
+            ++ pass_ops rho th 2 ++ [Rmdir (PThread Tmp t) [PFile Tmp t Obs; PFile Tmp t Json]] in
+  map i_op (thread_tr New TmpMode rho th) =
+  (X1 ++ copy_ops t Obs (all_bytes th) ++ X2)
+  ++ FopenW (PFile Fin t Json)
+     :: (loop_ops (PFile Tmp t Json) (PFile Fin t Json) (chunks1024 (meta_text true (th_meta1 th)))
+         ++ [Fread (PFile Tmp t Json) []])
+     ++ Fclose (PFile Fin t Json) :: X3.
+Proof.
+  intros E0 E1 t d g0 g1 X1 X2 X3.
+  unfold thread_tr, thread_free_tr, relocate, relocate_new.
+  rewrite !map_app, !map_pass_new.
+  unfold pass_ops at 1 2. rewrite E0, E1, !flat_map_app. fold t. fold d.
+  cbn [flat_map pbody_ops file_data map i_op iign iwarn mki].
+  fold g0 g1. unfold X1, X2, X3, copy_ops at 2.
+  rewrite <- !app_assoc. cbn [app]. rewrite <- !app_assoc. cbn [app]. reflexivity.
+Qed.
+
+Lemma init_nt_fin th f : Forall (nt (PFile Fin (th_tid th) f)) (map i_op (thread_init_tr TmpMode th)).
+Proof. unfold thread_init_tr, mkpath_thread, store_meta_tr; simpl; fa; leaf. Qed.
+Lemma flush_nt_fin th f : Forall (nt (PFile Fin (th_tid th) f)) (map i_op (flush_tr TmpMode th)).
+Proof. unfold flush_tr; rewrite map_map; apply Forall_map, Forall_forall; intros c _; leaf. Qed.
+Lemma store_nt_fin t txt f : Forall (nt (PFile Fin t f)) (map i_op (store_meta_tr TmpMode t txt)).
+Proof. unfold store_meta_tr; simpl; fa; leaf. Qed.
+Lemma store_nowrite m t txt : Forall nowrite (map i_op (store_meta_tr m t txt)).
+Proof. unfold store_meta_tr; simpl; fa; leaf. Qed.
+
+Lemma flushed_of_init m th :
+  flushed_of (map i_op (thread_init_tr m th)) (th_tid th) = hdr.
+Proof.
+  unfold thread_init_tr, mkpath_thread, store_meta_tr. rewrite !map_app, !flushed_of_app.
+  destruct m; simpl; rewrite Z.eqb_refl; reflexivity.
+Qed.
+
+Lemma ronly_Forall_nt q l : Forall ronly l -> Forall (nt q) l.
+Proof. apply Forall_impl; intros; apply ronly_nt; auto. Qed.
+Lemma ronly_Forall_nowrite l : Forall ronly l -> Forall nowrite l.
+Proof. apply Forall_impl; intros; apply ronly_nowrite; auto. Qed.
+
+Lemma tmp_thread_s2 bufsz rho th : wf_order rho -> forall s0 e,
+  content s0 (PFile Fin (th_tid th) Json) = [] ->
+  prefix e (map i_op (thread_tr New TmpMode rho th)) ->
+  json_finished (content (apply_ops bufsz e s0) (PFile Fin (th_tid th) Json)) = true ->
+  files (apply_ops bufsz e s0) (PFile Fin (th_tid th) Obs) = Some (all_bytes th)
+  /\ flushed_of e (th_tid th) = all_bytes th.
+Proof.
+  intros W s0 e Hc He Hfin.
+  destruct (order_split rho W (th_tid th) 0%nat (EFile Obs)) as (a0 & b0 & E0 & Na0 & Nb0);
+    [simpl; auto|].
+  destruct (order_split rho W (th_tid th) 1%nat (EFile Json)) as (a1 & b1 & E1 & Na1 & Nb1);
+    [simpl; auto|].
+  rewrite (tmp_thread_shape rho th a0 b0 a1 b1 E0 E1) in He.
+  pose proof (pass0_ronly th (PThread Tmp (th_tid th)) a0 Na0) as Ra0.
+  pose proof (pass0_ronly th (PThread Tmp (th_tid th)) b0 Nb0) as Rb0.
+  pose proof (pass1_ronly th (PThread Tmp (th_tid th)) a1 Na1) as Ra1.
+  pose proof (pass1_ronly th (PThread Tmp (th_tid th)) b1 Nb1) as Rb1.
+  eapply (s2_shape bufsz (PFile Fin (th_tid th) Json) (PFile Fin (th_tid th) Obs) (PFile Tmp (th_tid th) Json));
+    try exact He; try exact Hfin; try exact Hc.
+  - discriminate.
+  - fa; try apply init_nt_fin; try apply flush_nt_fin; try apply store_nt_fin;
+      try (apply ronly_Forall_nt; assumption); leaf.
+  - apply copy_nt; discriminate.
+  - fa; try (apply ronly_Forall_nt; assumption); leaf.
+  - fa; try (apply ronly_Forall_nt; assumption); leaf.
+  - fa; try (apply ronly_Forall_nt; assumption);
+      try (apply Forall_flat_map, Forall_forall; intros [| |[]] _; simpl; fa); leaf.
+  - leaf.
+  - leaf.
+  - fa; try (apply loop_nt; discriminate); leaf.
+  - intros s; apply copy_result.
+  - apply copy_nowrite.
+  - fa; try (apply ronly_Forall_nowrite; assumption); leaf.
+  - fa; try (apply ronly_Forall_nowrite; assumption);
+      try (apply Forall_flat_map, Forall_forall; intros [| |[]] _; simpl; fa); leaf.
+  - fa; try apply loop_nowrite; leaf.
+  - rewrite !flushed_of_app, flushed_of_init, flushed_of_flush.
+    rewrite (flushed_of_nowrite (map i_op (store_meta_tr _ _ _))) by apply store_nowrite.
+    rewrite (flushed_of_nowrite (flat_map _ a0)) by (apply ronly_Forall_nowrite; assumption).
+    simpl. rewrite app_nil_r. reflexivity.
+  - apply chunks1024_concat.
+Qed.
+
+(* ------------------------------------------------------------------ what init + flushes leave in the process directory *)
+
+Lemma writes_files bufsz o cs : forall s d, files s o = Some d ->
+  files (apply_ops bufsz (map (Write o) cs) s) o = Some (d ++ concat cs).
+Proof.
+  induction cs as [|c cs IH]; intros s d H; simpl.
+  - rewrite app_nil_r; auto.
+  - rewrite app_assoc. apply IH. simpl. rewrite upd_eq. unfold content; rewrite H; reflexivity.
+Qed.
+
+Lemma mkpath_frame bufsz l t s q :
+  files (apply_ops bufsz (map i_op (mkpath_thread l t)) s) q = files s q
+  /\ pend (apply_ops bufsz (map i_op (mkpath_thread l t)) s) q = pend s q.
+Proof. apply apply_ops_frame. unfold mkpath_thread; simpl; fa; leaf. Qed.
+
+Lemma init_flush_obs bufsz m th s0 :
+  files s0 (PFile (procloc m) (th_tid th) Obs) = None ->
+  files (apply_ops bufsz (map i_op (thread_init_tr m th ++ flush_tr m th)) s0) (PFile (procloc m) (th_tid th) Obs)
+  = Some (all_bytes th).
+Proof.
+  intros H0. set (o := PFile (procloc m) (th_tid th) Obs).
+  unfold thread_init_tr. rewrite !map_app, !apply_ops_app.
+  set (s1 := apply_ops bufsz (map i_op (match m with Direct => [] | TmpMode => mkpath_thread Fin (th_tid th) end))
+               (apply_ops bufsz (map i_op (mkpath_thread (procloc m) (th_tid th))) s0)).
+  assert (H1 : files s1 o = None).
+  { unfold s1.
+    destruct (apply_ops_frame bufsz (map i_op (match m with Direct => [] | TmpMode => mkpath_thread Fin (th_tid th) end))
+               (apply_ops bufsz (map i_op (mkpath_thread (procloc m) (th_tid th))) s0) o) as [-> _].
+    { destruct m; simpl; fa; leaf. }
+    destruct (mkpath_frame bufsz (procloc m) (th_tid th) s0 o) as [-> _]; auto. }
+  fold o. simpl map at 2.
+  set (s2 := apply_ops bufsz [Open o; Write o hdr] s1).
+  assert (H2 : files s2 o = Some hdr).
+  { unfold s2; simpl. rewrite H1. simpl. rewrite upd_eq. unfold content; simpl; rewrite upd_eq. reflexivity. }
+  set (s3 := apply_ops bufsz (map i_op (store_meta_tr m (th_tid th) (meta_text false (th_meta0 th)))) s2).
+  assert (H3 : files s3 o = Some hdr).
+  { unfold s3. destruct (apply_ops_frame bufsz (map i_op (store_meta_tr m (th_tid th) (meta_text false (th_meta0 th)))) s2 o) as [-> _]; auto.
+    unfold store_meta_tr; simpl; fa; unfold nt, o; simpl; intros E; injection E; discriminate. }
+  unfold flush_tr. rewrite map_map. simpl.
+  change (map (fun x => Write (PFile (procloc m) (th_tid th) Obs) x) (th_chunks th)) with (map (Write o) (th_chunks th)).
+  unfold all_bytes. apply writes_files; auto.
+Qed.
+
+Lemma store_result bufsz m t txt s :
+  files (apply_ops bufsz (map i_op (store_meta_tr m t txt)) s) (PFile (procloc m) t Json) = Some txt
+  /\ pend (apply_ops bufsz (map i_op (store_meta_tr m t txt)) s) (PFile (procloc m) t Json) = None.
+Proof.
+  unfold store_meta_tr; simpl map.
+  change (apply_ops bufsz [FopenW (PFile (procloc m) t Json); Fputs (PFile (procloc m) t Json) txt; Fclose (PFile (procloc m) t Json)] s)
+    with (exec_ok bufsz (Fclose (PFile (procloc m) t Json))
+            (buffered bufsz (exec_ok bufsz (FopenW (PFile (procloc m) t Json)) s) (PFile (procloc m) t Json) txt)).
+  apply bufinv_fclose. change txt with ([] ++ txt) at 2. apply bufinv_buffered, bufinv_fopen.
+Qed.
+
+(* ------------------------------------------------------------------ C09, one thread, direct mode *)
+
+Definition no70 (s : fsys) (j : path) : Prop :=
+  ~ In 70 (content s j) /\ forall pd, pend s j = Some pd -> ~ In 70 pd.
+
+Definition safe70 (j : path) (o : op) : Prop :=
+  nt j o \/ o = FopenW j \/ (exists n, o = Fputs j (meta_text false n)) \/ o = Fclose j.
+
+Lemma exec_no70 bufsz j o s : safe70 j o -> no70 s j -> no70 (exec_ok bufsz o s) j.
+Proof.
+  intros [H | [E | [[n E] | E]]] [Hc Hp]; try subst o.
+  - destruct (exec_ok_frame bufsz o s j H) as [E1 E2]. unfold no70, content; rewrite E1, E2. auto.
+  - split; simpl; unfold content; simpl; rewrite !upd_eq; [tauto|]. intros pd E; injection E as <-; tauto.
+  - simpl. unfold buffered. destruct (pend s j) as [pd|] eqn:E; [|split; auto].
+    assert (Ht : ~ In 70 (pd ++ meta_text false n)).
+    { intros H; apply in_app_or in H as [H|H]; [eapply Hp; eauto | eapply meta_false_no70; eauto]. }
+    destruct (_ <? _)%nat; split; simpl; unfold content; simpl; rewrite ?upd_eq.
+    + intros H; apply in_app_or in H as [H|H]; [apply Hc; auto|].
+      apply Ht. rewrite <- (firstn_skipn bufsz (pd ++ _)). apply in_or_app; auto.
+    + intros pd' E'; injection E' as <-. intros H; apply Ht.
+      rewrite <- (firstn_skipn bufsz (pd ++ _)). apply in_or_app; auto.
+    + exact Hc.
+    + intros pd' E'; injection E' as <-. exact Ht.
+  - simpl. destruct (pend s j) as [pd|] eqn:E; [|split; auto].
+    split; simpl; unfold content; simpl; rewrite ?upd_eq.
+    + intros H; apply in_app_or in H as [H|H]; [apply Hc; auto | eapply Hp; eauto].
+    + discriminate.
+Qed.
+
+Lemma apply_no70 bufsz j l : forall s, Forall (safe70 j) l -> no70 s j -> no70 (apply_ops bufsz l s) j.
+Proof.
+  induction l as [|o l IH]; intros s H Hn; auto.
+  inversion H; subst. rewrite apply_ops_cons. apply IH; auto. apply exec_no70; auto.
+Qed.
+
+Lemma direct_thread_s2 bufsz rho th : forall s0 e,
+  files s0 (PFile Fin (th_tid th) Obs) = None ->
+  files s0 (PFile Fin (th_tid th) Json) = None -> pend s0 (PFile Fin (th_tid th) Json) = None ->
+  prefix e (map i_op (thread_tr New Direct rho th)) ->
+  json_finished (content (apply_ops bufsz e s0) (PFile Fin (th_tid th) Json)) = true ->
+  files (apply_ops bufsz e s0) (PFile Fin (th_tid th) Obs) = Some (all_bytes th)
+  /\ flushed_of e (th_tid th) = all_bytes th.
+Proof.
+  intros s0 e Ho Hj Hpj He Hfin.
+  set (t := th_tid th) in *. set (j := PFile Fin t Json) in *. set (o := PFile Fin t Obs) in *.
+  assert (N0 : no70 s0 j).
+  { split; [unfold content; rewrite Hj; auto | rewrite Hpj; discriminate]. }
+  assert (Hshape : map i_op (thread_tr New Direct rho th) =
+                   map i_op (thread_init_tr Direct th ++ flush_tr Direct th)
+                   ++ [FopenW j; Fputs j (meta_text true (th_meta1 th)); Fclose j; Close o]).
+  { unfold thread_tr, thread_free_tr. rewrite !map_app. simpl. rewrite <- !app_assoc. reflexivity. }
+  rewrite Hshape in He. clear Hshape.
+  assert (SG : Forall (safe70 j) (map i_op (thread_init_tr Direct th ++ flush_tr Direct th))).
+  { rewrite map_app; apply Forall_app; split.
+    - unfold thread_init_tr, mkpath_thread, store_meta_tr; simpl.
+      fa; try (left; leaf; fail).
+      + right; left; reflexivity.
+      + right; right; left; eexists; reflexivity.
+      + right; right; right; reflexivity.
+    - unfold flush_tr; rewrite map_map; apply Forall_map, Forall_forall; intros c _; left; leaf. }
+  apply prefix_app_cases in He as [He|(e2 & -> & He)].
+  { exfalso. apply json_finished_70 in Hfin.
+    apply (apply_no70 bufsz j e s0) in N0; [destruct N0; auto | eapply Forall_prefix; eauto]. }
+  set (G := map i_op (thread_init_tr Direct th ++ flush_tr Direct th)) in *.
+  pose proof (apply_no70 bufsz j G s0 SG N0) as NG.
+  rewrite apply_ops_app in Hfin |- *. set (sG := apply_ops bufsz G s0) in *.
+  apply prefix_cons_cases in He as [->|(e3 & -> & He)].
+  { exfalso. apply json_finished_70 in Hfin. destruct NG; auto. }
+  apply prefix_cons_cases in He as [->|(e4 & -> & He)].
+  { exfalso. simpl in Hfin. unfold content in Hfin; simpl in Hfin; rewrite upd_eq in Hfin. discriminate. }
+  assert (HB : bufinv (exec_ok bufsz (Fputs j (meta_text true (th_meta1 th))) (exec_ok bufsz (FopenW j) sG)) j
+                      (meta_text true (th_meta1 th))).
+  { change (meta_text true (th_meta1 th)) with ([] ++ meta_text true (th_meta1 th)) at 2.
+    simpl exec_ok at 1. apply bufinv_buffered, bufinv_fopen. }
+  apply prefix_cons_cases in He as [->|(e5 & -> & He)].
+  { exfalso. rewrite !apply_ops_cons in Hfin. simpl apply_ops in Hfin.
+    rewrite (bufinv_not_json _ _ _ [] true (th_meta1 th) HB) in Hfin; [discriminate | rewrite app_nil_r; auto]. }
+  clear Hfin. split.
+  - rewrite !apply_ops_cons.
+    destruct (apply_ops_frame bufsz e5 (exec_ok bufsz (Fclose j) (exec_ok bufsz (Fputs j (meta_text true (th_meta1 th))) (exec_ok bufsz (FopenW j) sG))) o) as [-> _].
+    { eapply Forall_prefix; eauto. fa; leaf. }
+    destruct (exec_ok_frame bufsz (Fclose j) (exec_ok bufsz (Fputs j (meta_text true (th_meta1 th))) (exec_ok bufsz (FopenW j) sG)) o) as [-> _]; [leaf|].
+    destruct (exec_ok_frame bufsz (Fputs j (meta_text true (th_meta1 th))) (exec_ok bufsz (FopenW j) sG) o) as [-> _]; [leaf|].
+    destruct (exec_ok_frame bufsz (FopenW j) sG o) as [-> _]; [leaf|].
+    apply (init_flush_obs bufsz Direct th s0); auto.
+  - rewrite flushed_of_app. unfold G. rewrite map_app, flushed_of_app, flushed_of_init, flushed_of_flush.
+    cbn [flushed_of]. rewrite (flushed_of_nowrite e5); [rewrite app_nil_r; reflexivity|].
+    eapply Forall_prefix; eauto. fa; leaf.
 Qed.
